@@ -1,6 +1,7 @@
 (* C19 -- the cuboid vertex/facet table and the polyline line trace *)
-From Coq Require Import ZArith List Bool Lia.
-From MV Require Import Lib.ListZ Lib.Rigid Lib.OctZ Model.DisplayModel Model.DisplayExec Model.DisplayShapes
+From Coq Require Import ZArith List Bool Lia Permutation.
+From MV Require Import Lib.ListZ Lib.Rigid Lib.OctZ Gen.GenShapes Model.DisplayModel Model.DisplayExec Model.DisplayTriangle
+  Model.DisplayShapes
   Proofs.DisplayProofs.
 Import ListNotations.
 Open Scope Z_scope.
@@ -74,6 +75,17 @@ Qed.
 (* every face of the box is tiled by exactly two of the facets (split along a diagonal) *)
 Lemma cuboid_faces_tiled_lem : forallb face_tiled all_faces = true /\ length cuboid_facets = 12%nat.
 Proof. vm_compute. split; reflexivity. Qed.
+
+(* Tetrahedron: the drawn vertices are the object's four vertices (p2, p3 possibly exchanged), and the four
+   facets are four different corner triples, each leaving out a different vertex: the 4 faces *)
+Lemma tetra_vertices_lem p0 p1 p2 p3 : Permutation (tetra_vertices p0 p1 p2 p3) [p0; p1; p2; p3].
+Proof.
+  unfold tetra_vertices. destruct (_ <? 0); [|apply Permutation_refl].
+  apply perm_skip, perm_skip, perm_swap.
+Qed.
+
+Lemma tetra_table_lem : tetra_table_ok = true.
+Proof. vm_compute. reflexivity. Qed.
 
 (* Polyline: for every path, frame selection and unit factor the drawn current line is, per displayed index e,
    the conductor's vertices in order, each at f.(R_e v + p_e) *)
